@@ -557,6 +557,19 @@ def run(ck):
               "the refusal at line %s comes after part of the message was handed to asyncWrite: the peer has the head (with its Content-Length) "
               "and never gets the body it announces" % late[0].get("l"))
 
+    # ---------------- R3 clause: what was flushed is not flushed again ----------------
+    # (found by the mutation sweep: deleting `buf_.clear()` in ResponseStream::flush survives the repository's tests)
+    fl_ = lib.single(prog, RS + "flush")
+    aws_ = [e for e in fl_.events("call") if e.base_callee() == "Pistache::Tcp::Transport::asyncWrite"]
+    ck.require(aws_, "ResponseStream::flush does not hand its buffer to asyncWrite")
+    clears_ = lib.Summaries(prog).lift_must(lambda e: e["k"] == "call" and strip_tmpl(e.get("callee") or "") in ("Pistache::DynamicStreamBuf::clear",) and
+                                             ((e.get("recv") or {}).get("f") or "").endswith("ResponseStream::buf_"), "clears-stream-buffer")
+    kept_ = [x for x in cfg.exits_without(fl_, clears_, start_block=aws_[0].block, start_idx=aws_[0].idx + 1) if x.kind != "throw"]
+    ck.ob("C05-R3", "ResponseStream::flush/buffer-cleared-after-hand-over", not kept_, aws_[0].loc, fl_,
+          "buf_.clear() follows the asyncWrite on every path" if not kept_ else
+          "flush() can return with the chunks it has just handed to asyncWrite still in buf_: the next flush sends them a second time, and the "
+          "peer sees every earlier chunk repeated")
+
     # ---------------- R7: a writer leaves the caller's stream as it found it ----------------
     ck.rule("C05-R7", "C must-pass-through (sticky stream state)",
             "a library function that writes into a std::ostream it was handed (header, cookie, date, media-type and status-line writers) "
